@@ -224,7 +224,8 @@ def rpath_origin(ctx):
     ctx.rule(R, 'run-time search paths to project shared libraries are '
              'relative to $ORIGIN; shared libraries get a soname whenever an '
              'output is known; -rpath flags are emitted from the collected '
-             'rpaths')
+             'rpaths; the development symlink points at the soname symlink, '
+             'which points at the library')
     F = _facts(ctx)
     lr = F.fn('bfg9000.tools.patchelf:local_rpath')
     rels = [e for e in F.effects(lr, lambda e: e.name == 'relpath', depth=0)]
